@@ -388,6 +388,7 @@ class WRec:
         self.started_at = None
         self.procs = []
         self.launch_attempts = []
+        self.reported_after_failure = None
         self.files = set()
         self.cleanups = 0
         self.extras = []
@@ -1003,7 +1004,34 @@ class Sim:
                 except RuleViolationError as e:
                     raise _RuleHit(e) from None
         if rec.state == LAUNCH_FAILED:
-            # unspecified legality; resource invariants only
+            # The statement does not say which state a wrapper is in after a failed launch. Whatever the wrapper itself
+            # reports through get_app_state() is taken at its word: if it says CANCELLED, every further call follows
+            # the CANCELLED row of the life cycle (get_command allowed and must work, everything else that is
+            # state-checked refused with a state error and without side effects). Any other report: resources only.
+            if rec.reported_after_failure == CANCELLED and cls != "state":
+                allowed = ALLOWED.get(cls)
+                if allowed is not None and CANCELLED not in allowed:
+                    snap = self.snapshot(rec)
+                    st, val = call(fn, *args, **kwargs)
+                    if st == "ok":
+                        self.fail("legality:illegal-call-succeeded", kind=rec.kind, op=name, state="CANCELLED(after failed launch)")
+                    if not isinstance(val, AppStateError):
+                        self.fail("legality:wrong-exception-for-illegal-call", kind=rec.kind, op=name,
+                                  state="CANCELLED(after failed launch)", got=exc_name(val), msg=str(val)[:200])
+                    if snap != self.snapshot(rec):
+                        self.fail("legality:state-error-with-side-effects", kind=rec.kind, op=name, state="CANCELLED(after failed launch)")
+                    self.res.stats["probe:state-error-after-failed-launch"] += 1
+                    return "after-launch-failure:AppStateError"
+                if cls == "get_command":
+                    st, val = call(fn, *args, **kwargs)
+                    if st == "exc":
+                        self.fail("getter:raised", kind=rec.kind, op="get_command", got=exc_name(val), state="CANCELLED(after failed launch)")
+                    attempts = [a for a in getattr(rec, "launch_attempts", []) if getattr(a, "args", None)]
+                    if not isinstance(val, str) or (attempts and val != " ".join(attempts[-1].args)):
+                        self.fail("getter:wrong-value", kind=rec.kind, op="get_command", got=self.relt(str(val))[:200],
+                                  expected=self.relt(" ".join(attempts[-1].args))[:200] if attempts else "a string")
+                    self.res.stats["probe:get_command-after-failed-launch"] += 1
+                    return "after-launch-failure:ok"
             st, val = call(fn, *args, **kwargs)
             return "after-launch-failure:" + (st if st == "ok" else exc_name(val))
         allowed = ALLOWED.get(cls)
@@ -1275,7 +1303,11 @@ class Sim:
             rec.state = LAUNCH_FAILED
             rec.ended = True
             rec.end_how = "launch-failure"
-            return "launch-failed:" + exc_name(val)
+            st2, rep = call(rec.app.get_app_state)
+            if st2 == "exc":
+                self.fail("state:get_app_state-raised", kind=rec.kind, got=exc_name(rep), state="after failed launch")
+            rec.reported_after_failure = getattr(rep, "name", str(rep))
+            return "launch-failed:" + exc_name(val) + ":" + rec.reported_after_failure
         if st == "exc":
             self.fail("start:unexpected-exception", kind=rec.kind, got=exc_name(val), msg=self.relt(str(val))[:300])
         rec.state = RUNNING
@@ -2051,7 +2083,7 @@ ENUM_MODULE = _EnumModule(ENUM_LEN["thorough"])
 def extra_phase(tier, seed, total, workers, scratch):
     from .. import core
 
-    length = ENUM_LEN.get(tier, 3)
+    length = int(os.environ.get("VERIF_ENUM_LEN") or ENUM_LEN.get(tier, 3))  # development knob (tools_mutate.py)
     n = enum_size(length)
     mod = _EnumModule(length)
     PHASE_MODULES["enum"] = mod
